@@ -253,6 +253,7 @@ MUTANTS = [
     ('C12', 'kronecker_factored_lattice_lib.py', '    min_weight = tf.reduce_min(weights)\n', '    min_weight = tf.reduce_min(tf.abs(weights))\n', 'A7', 'non-negativity assert on |weights|'),
     ('C11', 'lattice_lib.py', '  monotonic_dominances = [tuple(c) for c in monotonic_dominances or []]', '  monotonic_dominances = list(monotonic_dominances or [])', 'T4', 'dominance constraints used as keys without tuple()'),
     ('C11', 'lattice_lib.py', '  range_dominances = [tuple(c) for c in range_dominances or []]', '  range_dominances = [tuple(pair) for pair in range_dominances or []]', None, 'N: comprehension variable renamed'),
+    ('C16', 'kronecker_factored_lattice_lib.py', '  if units is not None and units < 1:', '  if units and units < 1:', 'N0', 'zero units skips the range check'),
     ('C17', 'premade_lib.py', '        # going out of bound on the lattice\n        addition_score = -2.0',
      '        # going out of bound on the lattice\n        addition_score = -1.0', 'W7', 'full lattice ties with a repeat'),
     ('C17', 'premade_lib.py', '        # going out of bound on the lattice\n        addition_score = -2.0',
